@@ -18,8 +18,8 @@ import Pog.Model.Stream
   A method source is the list of its lines (`full_method_code.split("\n")`).
 
   GROUPING LEVEL.
-    * `groupEndpoints` = `EndpointsEmitter.emit` (emitters/endpoints_emitter.py:170-215): ALL tags, key
-                         `normalize_tag_key`, canonical tag `max(candidates, key=tag_score)`.
+    * `groupEndpoints` = `EndpointsEmitter.emit` (emitters/endpoints_emitter.py:172-219): ALL tags, key
+                         `normalize_tag_key` (an operation is appended once per key), canonical tag `max(candidates, key=tag_score)`.
     * `tagMapVisitor`  = the same map recomputed by `ClientVisitor.visit` (visit/client_visitor.py:26-63).
     * `groupMocks`     = `MocksEmitter._group_operations_by_tag` + the loop of `emit`
                          (emitters/mocks_emitter.py:46-70,113-121): FIRST tag only, RAW tag string.
@@ -349,13 +349,24 @@ def kDefaultTag : Str := "default".toList
 /-- `op.tags or ["default"]` -/
 def tagsOrDefault (op : TagOp) : List Str := if op.tags.isEmpty then [kDefaultTag] else op.tags
 
-/-- The iteration space of `for op in operations: for tag in tags:` as (key, tag, op id). -/
-def tagPairs (u : UInfo) (ops : List TagOp) : List (Str × Str × Str) :=
-  ops.flatMap fun op => (tagsOrDefault op).map fun t => (normTagKey u t, t, op.id)
+/-- The inner loop `for tag in tags:` for one operation, with the per-operation set `keys_of_op`, as (key, tag, `some id` iff the
+    operation is appended to `tag_key_to_ops[key]` at this tag, i.e. `key not in keys_of_op`). -/
+def opTagPairs (u : UInfo) (id : Str) : List Str → List Str → List (Str × Str × Option Str)
+  | _, [] => []
+  | keysOfOp, t :: ts =>
+    let k := normTagKey u t
+    if keysOfOp.contains k then (k, t, none) :: opTagPairs u id keysOfOp ts
+    else (k, t, some id) :: opTagPairs u id (k :: keysOfOp) ts
 
-/-- `tag_key_to_ops` -/
+/-- The iteration space of `for op in operations: for tag in tags:` as (key, tag, the op id when the operation is appended). -/
+def tagPairs (u : UInfo) (ops : List TagOp) : List (Str × Str × Option Str) :=
+  ops.flatMap fun op => opTagPairs u op.id [] (tagsOrDefault op)
+
+/-- `tag_key_to_ops`: `if key not in keys_of_op: keys_of_op.add(key); tag_key_to_ops.setdefault(key, []).append(op)` -/
 def keyToOps (u : UInfo) (ops : List TagOp) : List (Str × List Str) :=
-  (tagPairs u ops).foldl (fun d p => tagAddMulti d p.1 p.2.2) []
+  (tagPairs u ops).foldl (fun d p => match p.2.2 with
+    | some id => tagAddMulti d p.1 id
+    | none => d) []
 
 /-- `tag_key_to_candidates` (emitter) / `tag_candidates` (client visitor) -/
 def keyToCands (u : UInfo) (ops : List TagOp) : List (Str × List Str) :=
@@ -449,14 +460,15 @@ def groupEndpointsRaw (u : UInfo) (ops : List TagOp) : Option (List TagGroup) :=
   let tm := tagMapEmitter u ops
   (keyToOps u ops).mapM fun e => (tagDictGet tm e.1).map fun c => mkGroup u e.1 c e.2
 
-/-- The same, with the two dicts that the code updates in lock-step fused into one
+/-- The same, with the two dicts that the code updates in the same loop fused into one: every (key, tag) incidence carries the
+    tag and, when the operation is appended there, its id
     (`Pog.groupEndpointsRaw_eq` : `groupEndpointsRaw u ops = some (groupEndpoints u ops)`). -/
-def keyToPairs (u : UInfo) (ops : List TagOp) : List (Str × List (Str × Str)) :=
+def keyToPairs (u : UInfo) (ops : List TagOp) : List (Str × List (Str × Option Str)) :=
   (tagPairs u ops).foldl (fun d p => tagAddMulti d p.1 p.2) []
 
 def groupEndpoints (u : UInfo) (ops : List TagOp) : List TagGroup :=
   (keyToPairs u ops).map fun e =>
-    mkGroup u e.1 ((pyMaxTag u (e.2.map (·.1))).getD kDefaultTag) (e.2.map (·.2))
+    mkGroup u e.1 ((pyMaxTag u (e.2.map (·.1))).getD kDefaultTag) (e.2.filterMap (·.2))
 
 /-- `operation.tags[0] if operation.tags else "default"` -/
 def firstTag (op : TagOp) : Str := op.tags.head?.getD kDefaultTag
